@@ -143,6 +143,8 @@ def analyse_path(st):
             bounds[i][0] = 1
             if el.kind == "hex_u32":
                 bounds[i][1] = el.param
+        if el.kind == "run":
+            bounds[i][0], bounds[i][1] = el.param[1], el.param[2]
     unresolved = []
     for f in st.pc.facts:
         r = rewrite(f)
@@ -212,6 +214,9 @@ def analyse_path(st):
         if el.kind == "hex_u32":
             a = ("hexval", LINE, el.start.key(), 0, (1 << 32) - 1)
             el.values = verified.get(a, IntSet.range(0, (1 << 32) - 1))
+        if el.kind == "anychar":
+            # a verify() predicate on the character restricts the byte
+            el.values = verified.get(("byte", LINE, el.start.key()))
     return chain, side, unresolved
 
 
@@ -287,7 +292,12 @@ def path_fragment(f, chain, in_sub=False):
                 raise Unanalysable("hex value not bounded (<= 0xffff) by the verify predicate")
             frs.append(f.hex_run_value_in(el.values.intersect(IntSet.range(0, 0xffff)).values(), el.param))
         elif k == "anychar":
-            frs.append(f.repeat(ALL, 1, 1))
+            if el.values is not None:
+                frs.append(f.cls(frozenset(el.values.intersect(IntSet.range(0, 255)).values())))
+            else:
+                frs.append(f.repeat(ALL, 1, 1))
+        elif k == "run":
+            frs.append(f.repeat(frozenset(IntSet(el.param[0]).values()), el.lo, el.hi))
         else:
             raise Unanalysable("grammar element " + k)
     return f.seq(*frs)
